@@ -449,6 +449,24 @@ func runC18(c *core.Ctx) {
 		}
 	}
 	c.RunHistories(n, Registry["C18"].Mons, drive)
+	// more arguments in ONE command than any queue, batch or worker pool may be sized for (1100 paths, about 20 KB of argv)
+	c.RunHistoriesAt(6_000_000, c.Pick(2, 6), Registry["C18"].Mons, func(w *core.World) {
+		k := NewWalker(w, gen.NameOpts{}, nil)
+		k.Init()
+		var names []string
+		for i := 0; i < 1100; i++ {
+			names = append(names, fmt.Sprintf("many/f%04d.txt", i))
+		}
+		w.EditMany(names, int64(w.Hist))
+		for _, cmd := range [][]string{{"hash-object"}, {"add"}, {"restore", "--staged"}, {"add"}, {"commit", "-m", "1100 files"}, {"hash-object"}, {"rm"}, {"restore", "--staged"}, {"restore"}, {"add"}, {"cat-file", "-p"}, {"branch"}, {"rev-parse"}} {
+			if cmd[0] == "commit" {
+				k.goit(cmd...)
+				continue
+			}
+			k.goit(append(append([]string{}, cmd...), names...)...)
+			c.Count("C18.commands-with-1100-arguments")
+		}
+	})
 	// the same walks in working trees whose absolute path is 4030..4095 bytes long (see core.DeepLen)
 	c.RunHistoriesAt(core.DeepBase, c.Pick(66, 660), Registry["C18"].Mons, func(w *core.World) {
 		c.Count("C18.long-location-histories")
